@@ -82,6 +82,8 @@ pub struct TreeCacheCheckpoint {
     stack: Vec<u32>,
     serialized_nodes: BitSet,
     sentinel_entry: Option<u32>,
+    /// the number of calls to update() made before this checkpoint
+    num_updates: usize,
 }
 
 /// The TreeCache builds a "shadow tree" mirroring a CLVM tree but with
@@ -135,6 +137,12 @@ pub struct TreeCache {
     /// trees are identical or not. To mitigate malicious SHA-1 hash collisions,
     /// we salt the hashes
     salt: [u8; 8],
+
+    /// update() splices the new tree into the position of the sentinel, by
+    /// moving the sentinel's parents to the new root. In order to undo that in
+    /// restore(), every call to update() records the parent lists it replaced,
+    /// as (node entry index, previous parents).
+    update_log: Vec<Vec<(u32, Vec<(u32, ChildPos)>)>>,
 }
 
 impl TreeCache {
@@ -172,6 +180,7 @@ impl TreeCache {
             stack: self.stack.clone(),
             serialized_nodes: self.serialized_nodes.clone(),
             sentinel_entry,
+            num_updates: self.update_log.len(),
         }
     }
 
@@ -188,6 +197,14 @@ impl TreeCache {
             self.node_entries[*idx as usize].on_stack += 1;
         }
         self.serialized_nodes = st.serialized_nodes;
+        // detach the trees that were added after the checkpoint again, and give
+        // the sentinel its parents back
+        while self.update_log.len() > st.num_updates {
+            let replaced = self.update_log.pop().expect("update log");
+            for (idx, parents) in replaced.into_iter().rev() {
+                self.node_entries[idx as usize].parents = parents;
+            }
+        }
         if let Some(sentinel_entry) = st.sentinel_entry {
             self.node_map
                 .insert(self.sentinel_node.unwrap(), sentinel_entry);
@@ -196,11 +213,13 @@ impl TreeCache {
 
     pub fn update(&mut self, a: &Allocator, root: NodePtr) {
         let mut root_parents = Vec::<(u32, ChildPos)>::new();
+        let mut replaced_parents = Vec::<(u32, Vec<(u32, ChildPos)>)>::new();
         if let Some(placement) = self.sentinel_node {
             // "placement" is the sentinel node we used in the last update.
             // This position in the tree is now replaced by "root". Update
             // the node node_map to reflect this
             if let Some(idx) = self.node_map.get(&placement) {
+                replaced_parents.push((*idx, self.node_entries[*idx as usize].parents.clone()));
                 root_parents.append(&mut self.node_entries[*idx as usize].parents);
             }
         };
@@ -353,6 +372,8 @@ impl TreeCache {
             *self.node_map.get(&root).expect("root not in node_map")
         );
         let root_entry = &mut self.node_entries[root_idx as usize];
+        replaced_parents.push((root_idx, root_entry.parents.clone()));
+        self.update_log.push(replaced_parents);
         root_entry.parents.extend(root_parents);
         if root_entry.parents.len() > MAX_PARENTS {
             let num_drop = root_entry.parents.len() - MAX_PARENTS;
